@@ -344,4 +344,13 @@ example : isReversible (exGraph.node 2) = true ∧
     ((resume exGraph exS2 0 exPass 100).1.nd 2).finished = some 0 := by
   decide +kernel
 
+/-! lazy expansion (`H0 = [0, 1, 2, 3]`, see `Props/C01.lean`): the same removal on the lazily expanded suite -/
+
+example : ReachH exLazy 4 [] [0, 1, 2, 3] exL2 := reachH_runSched exLazy 4 [] _ 100 _ _ ReachH.init
+
+set_option maxRecDepth 100000 in
+example : exL2.hidden = [1, 3] ∧
+    Event.door "net1" "unset" [("vm1", "b")] ["own"] true ∈ (resume exLazy exL2 0 exPass 100).2 := by
+  decide +kernel
+
 end I2N.Props.C05
